@@ -76,7 +76,7 @@ CHECKS = {
         engine="Guards",
     ),
     "C02": dict(
-        technique="TLA+ semantic model of the major stage (MajorModel.tla + Filter.tla); TLC trace validation (MajorTrace.tla) brute-forcing every admissible allele multiset for each recorded real estimate_major call",
+        technique="TLA+ semantic model of the major stage (MajorModel.tla + Filter.tla); TLC trace validation (MajorTrace.tla) brute-forcing every admissible allele multiset for each recorded real estimate_major call; encoding layer MajorEncoding.tla (refinement + per-constraint witnesses replayed into the code)",
         text="Every recorded call of the real estimate_major (planted/noisy evidence over the toy gene and shipped catalogues, rule-witness tables, gap 0/.1/.5) is validated by TLC against the "
         "property-level definition: filters and candidates recomputed from raw counts, all admissible multisets enumerated, score = fit error + penalties, optimal, complete within gap (exact ties included), no repeats, carried-xor-novel.",
         design_ref="DESIGN.md §4 C02",
@@ -84,7 +84,7 @@ CHECKS = {
         engine="MajorModel",
     ),
     "C03": dict(
-        technique="TLA+ semantic model of the structure stage (CNModel.tla, CNRoute.tla); TLC trace validation (CNTrace.tla, CNRouteTrace.tla) enumerating every explanation (slot pair x extra copies x pseudogene copies) for each recorded real solve_cn_model / estimate_cn call",
+        technique="TLA+ semantic model of the structure stage (CNModel.tla, CNRoute.tla); TLC trace validation (CNTrace.tla, CNRouteTrace.tla) enumerating every explanation (slot pair x extra copies x pseudogene copies) for each recorded real solve_cn_model / estimate_cn call; encoding layer CNEncoding.tla (refinement + per-constraint witnesses replayed into the code)",
         text="Every recorded call of the real solve_cn_model on planted+noisy region depths (toy, CYP2A6, CYP2D6, GSTM1; M 3-6; gap 0/.1/.3; long-read fusion support; small cn_max) is validated by TLC: "
         "well-formedness, score = objective of the best explanation, optimality, within-gap, no repeat, unreported-contains-reported; user-supplied / default / male-X routes validated against CNRoute.",
         design_ref="DESIGN.md §4 C03",
@@ -92,7 +92,7 @@ CHECKS = {
         engine="CNModel",
     ),
     "C04": dict(
-        technique="TLA+ semantic model of the minor stage (MinorModel.tla); TLC trace validation (MinorTrace.tla) checking safety rules on every reported allele, score-is-objective (modulo the homozygous-fill post-processing) and, on enumerable universes, optimality over all admissible assignments",
+        technique="TLA+ semantic model of the minor stage (MinorModel.tla); TLC trace validation (MinorTrace.tla) checking safety rules on every reported allele, score-is-objective (modulo the homozygous-fill post-processing) and, on enumerable universes, optimality over all admissible assignments; encoding layer MinorEncoding.tla (refinement + per-constraint witnesses replayed into the code)",
         text="Every recorded call of the real estimate_minor (toy gene: noisy tables, 1-3 copies, all assignments enumerated in TLC; shipped genes: noise-free pairs and rule-witness tables) is validated against the property-level rules "
         "(refines major, core kept, add only with copies and reads, carried has reads, one per site, supported is carried), the objective, optimality and reproduction of planted variants.",
         design_ref="DESIGN.md §4 C04",
@@ -141,6 +141,9 @@ ENGINES = [
     dict(name="Filter", path="spec/Filter.tla", serves_properties=["C15", "C02", "C04"], kind_free_text="TLA+ spec of the quality/threshold filters; mc/MC_Filter, trace/FilterTrace"),
     dict(name="CNModel", path="spec/CNModel.tla", serves_properties=["C03"], kind_free_text="TLA+ semantic layer of cn.py (+ CNRoute.tla); trace/CNTrace, trace/CNRouteTrace"),
     dict(name="MinorModel", path="spec/MinorModel.tla", serves_properties=["C04", "C15"], kind_free_text="TLA+ semantic layer of minor.py; trace/MinorTrace"),
+    dict(name="MajorEncoding", path="spec/MajorEncoding.tla", serves_properties=["C02"], kind_free_text="TLA+ encoding layer of major.py (one operator per documented ILP constraint, switchable); mc/MC_MajorEncoding proves refinement of MajorModel and finds a distinguishing input per rule (witness/Major), replayed into estimate_major"),
+    dict(name="CNEncoding", path="spec/CNEncoding.tla", serves_properties=["C03"], kind_free_text="TLA+ encoding layer of cn.py; mc/MC_CNEncoding refinement of CNModel + per-rule witnesses (witness/CN) replayed into solve_cn_model"),
+    dict(name="MinorEncoding", path="spec/MinorEncoding.tla", serves_properties=["C04"], kind_free_text="TLA+ encoding layer of minor.py (incl. read-phase term); mc/MC_MinorEncoding refinement of MinorModel + per-rule witnesses (witness/Minor) replayed into estimate_minor"),
     dict(name="Params", path="spec/Params.tla", serves_properties=["C18"], kind_free_text="TLA+ spec of Profile.update and its routes; mc/MC_Params, gen/ParamsGen, trace/ParamsTrace"),
     dict(name="ILPEnum", path="spec/ILPEnum.tla", serves_properties=["C05"], kind_free_text="TLA+ spec of lpinterface.solutions(); mc/MC_ILPEnum, trace/ILPEnumTrace"),
     dict(name="Linearise", path="spec/Linearise.tla", serves_properties=["C05"], kind_free_text="TLA+ constant-level spec of prod/abssum helpers + case emitter"),
